@@ -10,12 +10,13 @@ PROPERTIES = {
     "C03": {
         "level": "proof",
         "targets": [F("conn.FakeSnowflakeConnection.__init__"), F("instance.FakeSnow.connect"), F("conn.FakeSnowflakeConnection.cursor"), F("checks.is_unqualified_table_expression"),
-                    F("expr.key_command"), F("cursor.FakeSnowflakeCursor._transform"), F("cursor.FakeSnowflakeCursor._execute")],
+                    F("expr.key_command"), F("transforms.set_schema"), F("cursor.FakeSnowflakeCursor._transform"), F("cursor.FakeSnowflakeCursor._execute")],
         "bounded": "bounded.C03",
         "trusted_base": [A_DUCK, A_SQLGLOT, A_WF],
         "explanation": "Deductive: connect establishes the session context (conn.database/schema, *_set flags and DuckDB's search path agree; own DuckDB cursor per connection); "
         "_execute raises 90105/90106 (sqlstate 22000) exactly when the statement's first table needs a database/schema the session lacks, before anything is executed; USE DATABASE/SCHEMA update "
-        "the context only after DuckDB accepted the statement; every other statement leaves the context alone; USE and SHOW are resolved against this connection's database (pipeline arguments). "
+        "the context only after DuckDB accepted the statement; every other statement leaves the context alone; USE and SHOW are resolved against this connection's database (pipeline arguments); "
+        "set_schema turns USE DATABASE d / USE SCHEMA [d.]s into SET schema = 'd.main' / 'd.s' (the qualifier, else the session's database) and records exactly those names for the bookkeeping. "
         "Bounded: USE/CREATE/DROP histories on two connections of one instance on the real stack.",
         "not_decided_here": "that DuckDB resolves an unqualified name against the search path set by SET schema (A-DUCK); statements with several tables are classified by their first table only (known finding)",
     },
@@ -88,12 +89,13 @@ PROPERTIES = {
     },
     "C14": {
         "level": "proof",
-        "targets": [F("conn.FakeSnowflakeConnection.__init__"), F("instance.FakeSnow.connect")],
+        "targets": [F("conn.FakeSnowflakeConnection.__init__"), F("instance.FakeSnow.connect"), F("transforms.create_database")],
         "bounded": "bounded.C14",
         "trusted_base": [A_DUCK],
         "explanation": "Deductive: FakeSnowflakeConnection.__init__ never raises, attaches the database / creates the schema exactly when the options allow and the object is missing, touches no other "
         "catalog object, sets database_set/schema_set exactly when the objects exist afterwards, reports upper-cased names, bootstraps a new database and names its file as db_file(db_path, NAME); "
-        "FakeSnow.connect forwards the instance's options. Bounded: the complete product of configurations on the real stack.",
+        "FakeSnow.connect forwards the instance's options; a database created by statement (transforms.create_database) is attached under the same file function db_file(db_path, name). "
+        "Bounded: the complete product of configurations on the real stack.",
         "not_decided_here": "meaning of the seven SQL templates of connect (A-DUCK 3): matched syntactically, exercised by the bounded product",
     },
     "C16": {
@@ -129,19 +131,20 @@ PROPERTIES = {
     },
     "C02": {
         "level": "other",
-        "targets": [F("checks.equal"), F("cursor.FakeSnowflakeCursor._transform"), F("conn.FakeSnowflakeConnection.__init__"), F("cursor.FakeSnowflakeCursor._execute")],
+        "targets": [F("checks.equal"), F("transforms.upper_case_unquoted_identifiers"), F("cursor.FakeSnowflakeCursor._transform"), F("conn.FakeSnowflakeConnection.__init__"), F("cursor.FakeSnowflakeCursor._execute")],
         "also": {"fakesnow.conn.FakeSnowflakeConnection.__init__": [r"C14\.names"], "fakesnow.cursor.FakeSnowflakeCursor._execute": [r"C04\.status\.", r"C03\.use\.(database|schema)\."]},
         "labelled_only": ["fakesnow.cursor.FakeSnowflakeCursor._execute", "fakesnow.conn.FakeSnowflakeConnection.__init__"],
         "bounded": "bounded.C02",
-        "trusted_base": [A_DUCK, A_SQLGLOT, A_WF, "A-TX: transforms.upper_case_unquoted_identifiers upper-cases exactly the unquoted identifiers (node-level transform, not under contract)"],
-        "explanation": "Deductive slice: checks.equal is Snowflake identifier equality (fold unquoted, keep quoted) for all identifier pairs; upper_case_unquoted_identifiers is the first transform of every statement "
+        "trusted_base": [A_DUCK, A_SQLGLOT, A_WF, "A-SQLGLOT 2: Expression.transform applies the node function to every node of the statement"],
+        "explanation": "Deductive slice: checks.equal is Snowflake identifier equality (fold unquoted, keep quoted) for all identifier pairs; upper_case_unquoted_identifiers turns exactly the unquoted identifiers into "
+        "upper-case copies and hands every other node back untouched; it is the first transform of every statement "
         "and runs before the transforms that produce status / context (set_schema, show_*); conn.database/schema are the upper-cased arguments; status messages and USE bookkeeping use the normalised name. "
         "Bounded (deciding tier): scenario histories of every statement kind re-spelled (keywords x identifiers in lower / UPPER / mIxEd / random, quoted upper-case naming) against the all-upper baseline.",
         "not_decided_here": "case-insensitivity of sqlglot's parser and DuckDB's resolution for every statement: bounded tier only",
     },
     "C09": {
         "level": "other",
-        "targets": [F("info_schema.insert_table_comment_sql"), F("info_schema.insert_text_lengths_sql"), F("types.describe_as_rowtype.<locals>.as_column_info"), F("cursor.FakeSnowflakeCursor._execute")],
+        "targets": [F("info_schema.insert_table_comment_sql"), F("info_schema.insert_text_lengths_sql"), F("transforms.extract_comment_on_table"), F("types.describe_as_rowtype.<locals>.as_column_info"), F("cursor.FakeSnowflakeCursor._execute")],
         "also": {"fakesnow.types.describe_as_rowtype.<locals>.as_column_info": [r"C06\.rowtype\."], "fakesnow.cursor.FakeSnowflakeCursor._execute": [r"C09\."]},
         "labelled_only": ["fakesnow.cursor.FakeSnowflakeCursor._execute"],
         "bounded": "bounded.C09",
@@ -186,13 +189,15 @@ PROPERTIES = {
     },
     "C15": {
         "level": "other",
-        "targets": [F("variables.Variables.inline_variables"), F("cursor.FakeSnowflakeCursor._inline_variables"), F("cursor.FakeSnowflakeCursor._transform"), F("conn.FakeSnowflakeConnection.__init__"),
+        "targets": [F("variables.Variables._set"), F("variables.Variables._unset"), F("variables.Variables._is_unset_expression"), F("variables.Variables.update_variables"),
+                    F("variables.Variables.inline_variables"), F("cursor.FakeSnowflakeCursor._inline_variables"), F("cursor.FakeSnowflakeCursor._transform"), F("conn.FakeSnowflakeConnection.__init__"),
                     F("conn.FakeSnowflakeConnection.cursor"), F("cursor.FakeSnowflakeCursor.execute")],
         "also": {"fakesnow.cursor.FakeSnowflakeCursor.execute": [r"C07\.undefined_var", r"C08\.order\.inline_first"]},
         "labelled_only": ["fakesnow.conn.FakeSnowflakeConnection.__init__", "fakesnow.cursor.FakeSnowflakeCursor.execute"],
         "bounded": "bounded.C15",
         "trusted_base": ["A-PY re.sub / re.search semantics (the substitution itself is a regular expression evaluated by CPython)", A_SQLGLOT],
-        "explanation": "Deductive slice: each connection owns a fresh, empty variable store shared by all of its cursors and by no other connection; every statement's text is inlined through that store before "
+        "explanation": "Deductive slice: SET name = value binds exactly that name to the value's text and changes no other variable; UNSET removes exactly that name; every other statement leaves the store unchanged "
+        "(Variables.update_variables/_set/_unset); each connection owns a fresh, empty variable store shared by all of its cursors and by no other connection; every statement's text is inlined through that store before "
         "parsing and binding; update_variables is applied to every statement with that store; an undefined reference raises before anything is parsed or executed. "
         "The textual substitution (prefix names, non-references untouched, letter case) is a regular expression: decided by the bounded tier against a reference tokenizer, exhaustively over short texts.",
         "not_decided_here": "regular-expression semantics of the substitution: bounded tier only",
